@@ -2,7 +2,7 @@
 From Coq Require Import ZArith QArith Qcanon List Bool Arith Lia.
 From QV.Core Require Import OF QcOF Sums Mat Cplx C17_Z8.
 From QV.Exec Require Import Base Core_ops.
-From QV.Model Require Import QObj HermEmbed C17_Tables C17_Catalogue.
+From QV.Model Require Import QObj HermEmbed C17_Tables C17_Catalogue C17_Permute.
 Import ListNotations.
 
 (* ---------- name encodings (lists of integers) ---------- *)
@@ -182,10 +182,33 @@ Definition op_unitary_res : opfun := fun zs qs =>
       Ok [maxabs (map fst M ++ map snd M)]
   | _ => Err (-1) end.
 
+(* ---------- id bookkeeping (Model/C17_Permute.v) ---------- *)
+Fixpoint nchunks (fuel n : nat) (l : list nat) : list (list nat) :=
+  match fuel with
+  | O => []
+  | S f => match l with [] => [] | _ => firstn n l :: nchunks f n (skipn n l) end
+  end.
+(* zs = mode :: n :: ids (n) ++ k symbols (n Pauli indices each) : Ok (the k permuted symbols);
+   mode 1 = permute_fixed (the repaired code), 0 = permute_coded (the code before fix toffoli-fredkin-cyclic-ids-inverted) *)
+Definition op_permute : opfun := fun zs _ =>
+  match zs with
+  | mode :: n :: rest =>
+      let n' := Z.to_nat n in let l := nats rest in let ids := firstn n' l in
+      let vs := nchunks (length l) n' (skipn n' l) in
+      Ok (map (fun x => qz (zn x)) (flat_map (fun v => if (mode =? 0)%Z then permute_coded ids v else permute_fixed ids v) vs))
+  | _ => Err (-1) end.
+(* zs = n :: ids : Ok (matP[i_original][i_sorted], row-major) *)
+Definition op_matp : opfun := fun zs _ =>
+  match zs with
+  | n :: rest => let ids := firstn (Z.to_nat n) (nats rest) in let k := length ids in
+      Ok (flat_map (fun i => map (fun j => qb (matP ids i j)) (seq 0 k)) (seq 0 k))
+  | _ => Err (-1) end.
+
 Definition C17_ops : optable :=
   [ ("c17.state"%string, op_state); ("c17.gate"%string, op_gate); ("c17.triples"%string, op_triples);
     ("c17.triple_holds"%string, op_triple_holds);
     ("c17.basis_chk"%string, op_basis_chk); ("c17.basis_elem"%string, op_basis_elem);
     ("c17.povm"%string, op_povm); ("c17.mproc"%string, op_mproc); ("c17.ham2t"%string, op_ham2t);
     ("c17.hs_kraus"%string, op_hs_kraus); ("c17.vecs"%string, op_vecs); ("c17.lind"%string, op_lind);
-    ("c17.apply"%string, op_apply); ("c17.opvec"%string, op_opvec); ("c17.unitary_res"%string, op_unitary_res) ].
+    ("c17.apply"%string, op_apply); ("c17.opvec"%string, op_opvec); ("c17.unitary_res"%string, op_unitary_res);
+    ("c17.permute"%string, op_permute); ("c17.matp"%string, op_matp) ].
